@@ -111,6 +111,6 @@ def register(PROPS):
             **({"gens": [{"id": "C04", "quick": 2500, "thorough": 60000, "thorough_seeds": 12, "race": True, "gomaxprocs": [1, 2, 16]},
                          {"id": "C09", "quick": 12000, "thorough": 300000, "thorough_seeds": 8},
                          {"id": "C08", "quick": 8000, "thorough": 200000, "thorough_seeds": 8}]} if pid == "C04" else {}),
-            "facts": {"hooks": ["Joe.Publish:3", "Joe.Shutdown:5", "Joe.Subscribe:7", "Joe.closeSubscribers:1",
+            "facts": {"hooks": ["Joe.Publish:3", "Joe.Shutdown:5", "Joe.Subscribe:7", "Joe.closeSubscribers:1", "Joe.init:6",
                                 "Joe.removeSubscriber:1", "Joe.start:11"]},
         }
